@@ -358,8 +358,8 @@ pub fn run(eng: &Engine) {
     eng.set_rule("(1) lists of 1..8 data frames interleaved with skippable frames (all 16 magics, payload 0..64 KiB) through decode_all / decode_all_to_vec with targets {exact, +k, -k, 0}, vectors with existing content, and faults (truncated skippable header/payload, trailing garbage, garbage between frames, truncated last frame); (2) every strict prefix of a frame (all cuts for frames <= 4 KiB, structural boundaries +-1 and 64 points otherwise) through decode_blocks, StreamingDecoder, decode_all, decode_from_to; non-trivial = list with >= 1 skippable and >= 2 data frames, or a prefix family over a frame with a compressed block or a checksum; distinct by input hash");
     eng.assume("an empty input is zero frames for decode_all (valid); decode_all_to_vec may use all spare capacity of the vector");
     let tier = eng.tier;
-    let n_multi = eng.tier.pick(2_500, 60_000);
-    let n_pref = eng.tier.pick(300, 20_000);
+    let n_multi = eng.tier.pick(8_000, 150_000);
+    let n_pref = eng.tier.pick(1_000, 40_000);
     eng.run_stage("multi_frame", n_multi, || multi_strategy(tier), check_multi);
     let max_len = if tier == Tier::Quick { 20_000 } else { 300_000 };
     eng.run_stage("prefixes", n_pref, move || frame_case_custom(max_len, 17, 6, 200, false), check_prefixes);
